@@ -17,6 +17,12 @@ Pat(w) == [j \in 1..w |-> IF j % 2 = 1 THEN 1 ELSE 0]            \* pattern 1,0,
 Mat(w) == [l \in 1..2 |-> [p \in 1..w |-> ((l * 3 + p * p) % 7) - 2]]   \* small signed integer motif matrix
 Mat0(w) == [l \in 1..2 |-> [p \in 1..w |-> IF p = 2 THEN 0 ELSE Mat(w)[l][p]]]
 
+\* a motif given as probabilities with an explicit background: probability of letter l at position p is 2^-PExp, the background
+\* probability of letter l is 2^-BExp[l]; the score of a letter is log(probability / background OF THAT LETTER) = (BExp - PExp) ln 2
+PExp(w) == [l \in 1..2 |-> [p \in 1..w |-> (l + p) % 3]]
+BExp == <<1, 3>>
+LogOdds(w) == [l \in 1..2 |-> [p \in 1..w |-> BExp[l] - PExp(w)[l][p]]]
+
 \* --- design invariants (row locality and window counts), checked on every state
 RowLocal == \A k \in 1..W : \A j \in DOMAIN rows :
                /\ Kmers(rows, k)[j] = Kmers(<<rows[j]>>, k)[1]
@@ -46,6 +52,8 @@ Emit == PrintT(ToJson([rows |-> rows,
                        \* the same motif with a neutral second position (every letter scores 0 there)
                        mats0 |-> [k \in 1..W |-> Mat0(k)],
                        scores0 |-> [k \in 1..W |-> Scores(rows, Mat0(k), k)],
+                       pexp |-> [k \in 1..W |-> PExp(k)], bexp |-> BExp,
+                       scoresLO |-> [k \in 1..W |-> Scores(rows, LogOdds(k), k)],
                        minim |-> [k \in 1..W |-> [w \in 1..W |-> IF w >= k THEN Minimizers(rows, k, w) ELSE <<>>]],
                        counts |-> [k \in 1..W |-> Counts(rows, k)]]))
 ==============================================================================
